@@ -27,7 +27,8 @@ def formula(r, depth):
 def path(r, depth):
     k = r.random()
     if depth == 0 or k < 0.3:
-        return r.choice(["a", "b", "&true", "&false", "&final", "p(1)", "p(X)", "? a", "? &true", "-a", "1", "(a,b)", "\"s\"", "? (a + b)", "* ? a"])
+        return r.choice(["a", "b", "&true", "&false", "&final", "p(1)", "p(X)", "? a", "? &true", "-a", "1", "(a,b)", "\"s\"", "? (a + b)", "* ? a",
+                         "? (? a)", "? (* a)", "? (* &true)", "? (a ;; b)", "* (* a)", "? (? (? b))", "? (a .>? b)"])
     if k < 0.5:
         return "({} {})".format(r.choice(["?", "*", "&", "~"]), path(r, depth - 1))
     return "({} {} {})".format(path(r, depth - 1), r.choice(["+", ";;", ".>?", ".>*", "&"]), path(r, depth - 1))
